@@ -3,6 +3,7 @@ import HavocVerif.Driver.C02
 import HavocVerif.Driver.C03
 import HavocVerif.Driver.C04
 import HavocVerif.Driver.C05
+import HavocVerif.Driver.C06
 import HavocVerif.Driver.C07
 import HavocVerif.Driver.C08
 import HavocVerif.Driver.C09
@@ -30,6 +31,7 @@ def stepperFor (prop : String) : Option Stepper :=
   | "C03" => some ⟨DriverC03.SSt, {}, DriverC03.sstep⟩
   | "C04" => some ⟨DriverC04.St, {}, DriverC04.step⟩
   | "C05" => some ⟨DriverC05.St, {}, DriverC05.step⟩
+  | "C06" => some ⟨DriverC06.St, {}, DriverC06.step⟩
   | "C07" => some ⟨DriverC07.St, {}, DriverC07.step⟩
   | "C08" => some ⟨DriverC08.St, {}, DriverC08.step⟩
   | "C09" => some ⟨Forest, {}, DriverC09.step⟩
